@@ -220,7 +220,82 @@ def rule_wif(ctx: Ctx, rep: Report) -> None:
     rep.ob(rule, "wif_other_sizes_refused", bool(oth), w.where(), "any other payload size is refused")
 
 
+REVERSE_NETWORK_MAPS = {"network_from_xkeyversion", "network_from_key_value"}
+
+
+def rule_network_membership(ctx: Ctx, rep: Report) -> None:
+    """C06.network_membership: version bytes and prefixes are shared between
+    networks (testnet, signet and regtest have one set of xpub versions, one
+    WIF byte, ...), so "is this a key of network N" is asked as *the version
+    is among N's versions* -- never by mapping the version back to the one
+    network the reverse map names first and comparing names: a regtest key
+    would then be refused as "not a regtest key"."""
+    rule = "C06.network_membership"
+    n = 0
+    for fi in sorted(ctx.prog.functions.values(), key=lambda f: f.qualname):
+        calls = [c for c in own_nodes(fi.node) if isinstance(c, ast.Call) and call_name(c) in REVERSE_NETWORK_MAPS]
+        if not calls:
+            continue
+        params = set(fi.params())
+        bound = {norm(t) for a in own_nodes(fi.node) if isinstance(a, ast.Assign) and any(a.value is c for c in calls) for t in a.targets}
+        for c in own_nodes(fi.node):
+            if not (isinstance(c, ast.Compare) and len(c.ops) == 1 and isinstance(c.ops[0], (ast.Eq, ast.NotEq))):
+                continue
+            sides = [c.left, c.comparators[0]]
+            rev = [x for x in sides if (isinstance(x, ast.Call) and call_name(x) in REVERSE_NETWORK_MAPS) or (isinstance(x, ast.Name) and x.id in bound)]
+            req = [x for x in sides if isinstance(x, ast.Name) and x.id in params]
+            if rev and req:
+                rep.ob(rule, f"{fi.qualname}:{norm(c)}", False, fi.where(c),
+                       f"`{norm(c)}` maps the version back to one network and compares names: the networks that share the version are refused")
+        n += 1
+        rep.ob(rule, f"{fi.qualname}:uses_reverse_map", True, fi.where(calls[0]), "reverse map used to name a network, not to test membership")
+    # the membership tests that exist: asked against the set of the requested network's versions
+    px = ctx.func("btclib.to_pub_key._pub_keyinfo_from_xpub")
+    cs = refusal_constraints(ctx, px)
+    okm = any(c.op == "not in" and "version" in str(c.subject) for c in cs)
+    rep.ob(rule, "_pub_keyinfo_from_xpub:membership", okm, px.where(), "the xpub's version must be one of the requested network's versions")
+    rep.floor(rule, 3)
+
+
+def rule_one_network(ctx: Ctx, rep: Report) -> None:
+    """C06.one_network: a script over several keys is a script of one network:
+    with no network named the first key names it, and *every later key is read
+    against that one* -- so the loop over the remaining keys is handed the
+    network the first call returned, not the caller's `None`, under which a
+    mainnet and a testnet key are both "fine" and end up in one address."""
+    rule = "C06.one_network"
+    n = 0
+    for fi in sorted(ctx.module("btclib.script.script_pub_key").functions.values(), key=lambda f: f.qualname):
+        calls = [c for c in own_nodes(fi.node) if isinstance(c, ast.Call) and call_name(c) in ("pub_keyinfo_from_key", "pub_keyinfo_from_pub_key") and len(c.args) >= 2]
+        looped = [c for c in calls if any(isinstance(a, (ast.ListComp, ast.GeneratorExp, ast.For, ast.SetComp)) for a in _ancestors_until(c, fi.node))]
+        if not looped:
+            continue
+        g = ctx.cfg(fi)
+        for c in looped:
+            n += 1
+            net = c.args[1]
+            if not isinstance(net, ast.Name) or net.id not in fi.params():
+                rep.ob(rule, f"{fi.qualname}:{norm(c)[:50]}", True, fi.where(c), "the network is not the caller's optional argument")
+                continue
+            # an assignment `<key>, <net> = pub_keyinfo_from_key(first, <net>, ...)` must lie on every path to the loop
+            sets = [a for a in own_nodes(fi.node) if isinstance(a, ast.Assign) and isinstance(a.value, ast.Call) and call_name(a.value) in ("pub_keyinfo_from_key", "pub_keyinfo_from_pub_key")
+                    and any(isinstance(t, ast.Tuple) and any(isinstance(e, ast.Name) and e.id == net.id for e in t.elts) for t in a.targets)]
+            ok = bool(sets) and g.path_avoiding(g.nodes_containing(c), [i for a in sets for i in g.nodes_containing(a)]) is None
+            rep.ob(rule, f"{fi.qualname}:{norm(c)[:50]}", ok, fi.where(c), "the remaining keys are read against the network the first key set" if ok else
+                   f"the loop reads every key against the caller's `{net.id}` (possibly None) before the first key has set it: keys of different networks are accepted together")
+    rep.floor(rule, 1)
+
+
+def _ancestors_until(n: ast.AST, stop: ast.AST):
+    n = parent(n)
+    while n is not None and n is not stop:
+        yield n
+        n = parent(n)
+
+
 RULES = [
+    ("C06.one_network", rule_one_network),
+    ("C06.network_membership", rule_network_membership),
     ("C06.checksum_gate", rule_checksum_gate),
     ("C06.constants", rule_constants),
     ("C06.ranges", rule_ranges),
@@ -229,6 +304,12 @@ RULES = [
 ]
 
 CONTROLS = [
+    {"rule": "C06.one_network", "name": "p2ms reads every key against the caller's network", "module": "btclib.script.script_pub_key",
+     "edit": lambda ctx: M.sub_expr(ctx, "btclib.script.script_pub_key.ScriptPubKey.p2ms", lambda n: isinstance(n, ast.Assign) and isinstance(n.targets[0], ast.Tuple) and "pub_keyinfo_from_key(keys[0]" in norm(n.value),
+                                    "pub_key, _unused_network = pub_keyinfo_from_key(keys[0], network, compressed)")},
+    {"rule": "C06.network_membership", "name": "xpub network asked through the reverse map", "module": "btclib.to_pub_key",
+     "edit": lambda ctx: M.sub_expr(ctx, "btclib.to_pub_key._pub_keyinfo_from_xpub", lambda n: isinstance(n, ast.Compare) and isinstance(n.ops[0], ast.NotIn) and "version" in norm(n),
+                                    "network_from_xkeyversion(xpub.version) != network")},
     {"rule": "C06.checksum_gate", "name": "base58 hashes payload and checksum together", "module": B58,
      "edit": lambda ctx: M.sub_expr(ctx, f"{B58}.decode", M.is_text("h256 = hash256(result)"), "h256 = hash256(result + checksum)")},
     {"rule": "C06.checksum_gate", "name": "bech32 decode always uses the bech32 constant", "module": BE,
